@@ -28,6 +28,16 @@ pub fn c04(eng: &mut Engine, rng: &mut Rng, thorough: bool, out: &mut Out) -> Ca
         }
         let r = if w3c { eng.build_w3c(&plan).map(|_| ()) } else { eng.build_legacy(&plan).map(|_| ()) };
         if let Some((mut pc, imp)) = eng.last_present.take() {
+            if !broken && imp.get("err").is_none() {
+                // the hypotheses of C04's theorem (meetsDemands) must hold of the honest flows this family exercises
+                let (_, actx) = build_ctx(&eng.cast, &o, &mut eng.accs);
+                let mut mc = json!({"op": if w3c { "meets_w3c" } else { "meets_legacy" }, "fam": if w3c { "c04.meets_w3c" } else { "c04.meets_legacy" }, "dir": "exact", "nt": true,
+                    "ctx": actx, "pctx": pc["pctx"], "req": pc["req"], "sel": pc["sel"]});
+                if !w3c {
+                    mc["self_attested"] = pc["self_attested"].clone();
+                }
+                cases.push((mc, json!({"meets": true, "failed": []})));
+            }
             pc["fam"] = json!(if w3c { "c04.present_w3c" } else { "c04.present_legacy" });
             pc["cls"] = json!(if broken { "broken-selection" } else { "honest-selection" });
             pc["dir"] = json!("exact");
@@ -1122,4 +1132,82 @@ pub fn ffi_flows(eng: &mut Engine, rng: &mut Rng, thorough: bool, out: &mut Out)
     out.count_n("c17:flows", flows.len() as u64);
     println!("FFI_FLOWS_FILE {path}");
     vec![]
+}
+
+// ---------------------------------------------------------------------------------------------
+// C08 (system level): the presentation timestamp against the demanded window, for unrevoked credentials
+
+pub fn c08s(eng: &mut Engine, rng: &mut Rng, thorough: bool, out: &mut Out) -> Cases {
+    let mut cases = vec![];
+    let rounds = if thorough { 10 } else { 1 };
+    let ri = eng.cast.creds[eng.cast.cred("r1_alice")].rev.unwrap().0;
+    let reg_id = eng.cast.w.defs[eng.cast.regs[ri].def].regs[eng.cast.regs[ri].reg].rid.0.clone();
+    for _ in 0..rounds {
+        for w3c in [false, true] {
+            let fmt = if w3c { "w3c" } else { "legacy" };
+            let fam = format!("c08s.{fmt}");
+            // holder's state is for list1 (timestamp 20); the credential (index 1) is valid in every list
+            for placement in ["global", "revealed", "unrevealed", "group", "predicate"] {
+                for (wcls, iv, inside) in [("inside", json!({"from": 15, "to": 25}), true), ("inside-open-upper", json!({"from": 20}), true), ("inside-open-lower", json!({"to": 20}), true),
+                    ("before", json!({"from": 21, "to": 30}), false), ("after", json!({"from": 5, "to": 19}), false), ("before-open-upper", json!({"from": 25}), false)] {
+                    let plan = rev_plan(rng, eng, "r1_alice", Some(1), None, placement, iv.clone());
+                    let o = VOpts { lists: Some(vec![(ri, 0), (ri, 1), (ri, 2)]), rev_reg_defs: true, ..Default::default() };
+                    // the verifier's override replaces the requested lower bound (when there is one) by an earlier accepted one
+                    let ovr_from = iv.get("from").and_then(|x| x.as_u64());
+                    let o_ovr = VOpts { override_: ovr_from.map(|f| vec![(reg_id.clone(), vec![(f, 10u64)])]), ..o.clone() };
+                    let cls = format!("c08s:{wcls}:{placement}");
+                    // known finding F5: the legacy verifier ignores an interval that sits only on an unrevealed referent
+                    let unrev_legacy = placement == "unrevealed" && !w3c;
+                    let sig = if !inside && unrev_legacy { "C08:legacy:unrevealed-interval-ignored".to_string() } else { String::new() };
+                    let expect = if inside { Some(true) } else { Some(false) };
+                    let built_l = if w3c { None } else { eng.build_legacy(&plan).ok() };
+                    let built_w = if w3c { eng.build_w3c(&plan).ok() } else { None };
+                    if let Some(b) = &built_l {
+                        emit_legacy(eng, out, &mut cases, &fam, &cls, &sig, expect, &b.pres, &b.ghosts, &b.agg, &b.req, &o, "safety");
+                        if ovr_from.is_some() && wcls.starts_with("before") {
+                            // with the override the lower bound becomes 10: 20 is inside unless the upper bound excludes it
+                            emit_legacy(eng, out, &mut cases, &fam, &format!("{cls}:override"), "", Some(true), &b.pres, &b.ghosts, &b.agg, &b.req, &o_ovr, "safety");
+                        }
+                        // the presentation names no timestamp although an interval applies
+                        let mut p = b.pres.clone();
+                        p["identifiers"][0]["timestamp"] = Value::Null;
+                        emit_legacy(eng, out, &mut cases, &fam, &format!("{cls}:no-timestamp"), &(if unrev_legacy { "C08:legacy:unrevealed-interval-ignored".to_string() } else { String::new() }), Some(false), &p, &b.ghosts, &b.agg, &b.req, &o, "safety");
+                        // no status list for the named timestamp
+                        let mut p = b.pres.clone();
+                        p["identifiers"][0]["timestamp"] = json!(17);
+                        emit_legacy(eng, out, &mut cases, &fam, &format!("{cls}:unlisted-timestamp"), "", Some(false), &p, &b.ghosts, &b.agg, &b.req, &o, "safety");
+                    }
+                    if let Some(b) = &built_w {
+                        emit_w3c(eng, out, &mut cases, &fam, &cls, &sig, expect, &b.pres, &b.ghosts, &b.agg, true, &b.req, &o, "safety");
+                        if ovr_from.is_some() && wcls.starts_with("before") {
+                            emit_w3c(eng, out, &mut cases, &fam, &format!("{cls}:override"), "", Some(true), &b.pres, &b.ghosts, &b.agg, true, &b.req, &o_ovr, "safety");
+                        }
+                        let mut p = b.pres.clone();
+                        let mut pv = p.verifiable_credential[0].get_credential_presentation_proof().unwrap().clone();
+                        pv.timestamp = None;
+                        set_w3c_proof(&mut p.verifiable_credential[0], &pv, None, None);
+                        emit_w3c(eng, out, &mut cases, &fam, &format!("{cls}:no-timestamp"), "", Some(false), &p, &b.ghosts, &b.agg, true, &b.req, &o, "safety");
+                        let mut p = b.pres.clone();
+                        let mut pv = p.verifiable_credential[0].get_credential_presentation_proof().unwrap().clone();
+                        pv.timestamp = Some(17);
+                        set_w3c_proof(&mut p.verifiable_credential[0], &pv, None, None);
+                        emit_w3c(eng, out, &mut cases, &fam, &format!("{cls}:unlisted-timestamp"), "", Some(false), &p, &b.ghosts, &b.agg, true, &b.req, &o, "safety");
+                    }
+                }
+            }
+            // credentials from a non-revocable definition ignore intervals
+            let mut plan = basic_plan(rng, eng, "a_alice", true);
+            plan.global_nr = Some(json!({"from": 5, "to": 6}));
+            plan.refs[0].non_revoked = Some(json!({"from": 100}));
+            let o = plain_opts();
+            if w3c {
+                if let Ok(b) = eng.build_w3c(&plan) {
+                    emit_w3c(eng, out, &mut cases, &fam, "c08s:non-revocable-ignores-intervals", "", Some(true), &b.pres, &b.ghosts, &b.agg, true, &b.req, &o, "safety");
+                }
+            } else if let Ok(b) = eng.build_legacy(&plan) {
+                emit_legacy(eng, out, &mut cases, &fam, "c08s:non-revocable-ignores-intervals", "", Some(true), &b.pres, &b.ghosts, &b.agg, &b.req, &o, "safety");
+            }
+        }
+    }
+    cases
 }
